@@ -2,8 +2,8 @@ from checkdef import part
 SPEC = {
     "level": "model_checking",
     "parts": [part("c13_deps", "asan", ["c13_deps.cpp"], env={"ASAN_OPTIONS": "detect_leaks=0"}, timeout={"quick": 1500, "thorough": 7200})],
-    "rule": "breadth-first enumeration of ALL enabled operation sequences of length <= 5 (thorough: + lengths 6 and 7 ending in a "
-            "deletion or reset) over {define variable a (distance) / b (extended-Lagrangian distance) / c (distanceZ with total "
+    "rule": "breadth-first enumeration of ALL enabled operation sequences of length <= 5 plus those of length 6 (thorough: 6 and 7) ending in a "
+            "deletion or reset, over {define variable a (distance) / b (extended-Lagrangian distance) / c (distanceZ with total "
             "force), define bias h (harmonic, timeStepFactor 2) / w (walls) / hi (2-D histogram) / f (ABF) / m "
             "(metadynamics), delete bias x, delete variable x, reset, step}, each on a fresh module (ASan build) followed by "
             "two steps; in EVERY intermediate state: dependency invariant on every object, atoms held == atoms of live "
